@@ -7,6 +7,7 @@ import (
 	"os"
 	"path"
 
+	"github.com/regclient/regclient/types/descriptor"
 	"github.com/regclient/regclient/types/manifest"
 	"github.com/regclient/regclient/types/ref"
 )
@@ -74,6 +75,24 @@ func (o *OCIDir) Close(ctx context.Context, r ref.Ref) error {
 	return nil
 }
 
+// closeManifestGet loads a nested manifest using the media type from the descriptor that lists it.
+// The media type cannot always be detected from the body (e.g. an image without the optional mediaType field and without layers).
+func (o *OCIDir) closeManifestGet(r ref.Ref, d descriptor.Descriptor) (manifest.Manifest, error) {
+	if err := d.Digest.Validate(); err != nil {
+		return nil, fmt.Errorf("invalid digest %s: %w", string(d.Digest), err)
+	}
+	//#nosec G304 users should validate references they attempt to open
+	mb, err := os.ReadFile(path.Join(r.Path, "blobs", d.Digest.Algorithm().String(), d.Digest.Encoded()))
+	if err != nil {
+		return nil, err
+	}
+	return manifest.New(
+		manifest.WithRef(r),
+		manifest.WithDesc(descriptor.Descriptor{MediaType: d.MediaType, Digest: d.Digest, Size: int64(len(mb))}),
+		manifest.WithRaw(mb),
+	)
+}
+
 func (o *OCIDir) closeProcManifest(ctx context.Context, r ref.Ref, m manifest.Manifest, dl *map[string]bool) error {
 	if mi, ok := m.(manifest.Indexer); ok {
 		// go through manifest list, updating dl, and recursively processing nested manifests
@@ -84,7 +103,7 @@ func (o *OCIDir) closeProcManifest(ctx context.Context, r ref.Ref, m manifest.Ma
 		for _, cur := range ml {
 			cr := r.SetDigest(cur.Digest.String())
 			(*dl)[cr.Digest] = true
-			cm, err := o.manifestGet(ctx, cr)
+			cm, err := o.closeManifestGet(cr, cur)
 			if err != nil {
 				// ignore errors in case a manifest has been deleted or sparse copy
 				o.slog.Debug("could not retrieve manifest",
